@@ -70,7 +70,7 @@ def red_cases(rng, w, quick):
         # qt_<ty>_<op>: PARALLEL_FUNC -> qt_loopaccum_balance_inner(0, n, SYNCVAR_T)
         combos = [(ty, op) for ty in TYS for op in OPS]
         if quick:       # every syncvar-flavour call costs ~0.1 s of wake-up latency on multi-worker configurations
-            combos = rng.shuffle(combos)[:4 if w > 1 else 12]
+            combos = rng.shuffle(combos)[:3 if w > 1 else 12]
         for (ty, op) in combos:
             pat = rng.choice([0, 0, 3, 4, 5, 6, 7, 1, 2])
             cases.append(("api", "la", op, ty, pat, n, rng.next() >> 1, 0, n, 1 if rng.chance(1, 5) else 0))
